@@ -527,7 +527,17 @@ func (fc *funcContext) translateExpr(expr ast.Expr) *expression {
 				fc.zeroValue(t.Elem()),
 			)
 		case *types.Basic:
-			return fc.formatExpr("%e.charCodeAt(%f)", e.X, e.Index)
+			constantIndex := fc.pkgCtx.Types[e.Index].Value != nil
+			if constantIndex && fc.pkgCtx.Types[e.X].Value != nil {
+				// Constant index into a constant string is bounds-checked by the type checker.
+				return fc.formatExpr("%e.charCodeAt(%f)", e.X, e.Index)
+			}
+			// JS strings expose their length the same way native arrays do.
+			pattern := rangeCheck("%1e.charCodeAt(%2f)", constantIndex, true)
+			if constantIndex {
+				pattern = `(%2f >= %1e.length ? ($throwRuntimeError("index out of range"), undefined) : %1e.charCodeAt(%2f))`
+			}
+			return fc.formatExpr(pattern, e.X, e.Index)
 		case *types.Signature:
 			switch u := e.X.(type) {
 			case *ast.Ident:
